@@ -62,15 +62,10 @@ type Buffer struct {
 
 // Reader is wrapper of bytes.Reader
 type Reader struct {
-	ref       []byte
-	buf       *bytes.Reader
-	skipDepth int
-	headLen   int // bytes taken by the head readHead returned last
+	ref     []byte
+	buf     *bytes.Reader
+	headLen int // bytes taken by the head readHead returned last
 }
-
-// maxSkipDepth bounds the nesting of containers inside a skipped (unknown) field, so that a
-// packet made of nothing but nested heads cannot exhaust the stack.
-const maxSkipDepth = 1000
 
 //go:nosplit
 func bWriteU8(w *bytes.Buffer, data uint8) error {
@@ -361,7 +356,6 @@ func (b *Buffer) Grow(size int) {
 func (b *Reader) Reset(data []byte) {
 	b.buf.Reset(data)
 	b.ref = data
-	b.skipDepth = 0
 }
 
 //go:nosplit
@@ -417,37 +411,6 @@ func (b *Reader) Skip(n int) {
 	_, _ = b.buf.Seek(int64(n), io.SeekCurrent)
 }
 
-func (b *Reader) skipFieldMap() error {
-	var length int32
-	err := b.ReadInt32(&length, 0, true)
-	if err != nil {
-		return err
-	}
-
-	for i := int32(0); i < length*2; i++ {
-		tyCur, _, err := b.readHead()
-		if err != nil {
-			return err
-		}
-		_ = b.skipField(tyCur)
-	}
-	return nil
-}
-func (b *Reader) skipFieldList() error {
-	var length int32
-	err := b.ReadInt32(&length, 0, true)
-	if err != nil {
-		return err
-	}
-	for i := int32(0); i < length; i++ {
-		tyCur, _, err := b.readHead()
-		if err != nil {
-			return err
-		}
-		_ = b.skipField(tyCur)
-	}
-	return nil
-}
 func (b *Reader) skipFieldSimpleList() error {
 	tyCur, _, err := b.readHead()
 	if tyCur != BYTE {
@@ -466,67 +429,87 @@ func (b *Reader) skipFieldSimpleList() error {
 	return nil
 }
 
+// skipField skips the content of one field of wire type ty, whose head has been read.  Containers
+// nested inside it are walked with an explicit stack instead of recursion, so that neither the
+// nesting depth of an unknown field nor a packet made of nothing but nested heads is limited by
+// (or can exhaust) the goroutine stack; every error met on the way is reported.
 func (b *Reader) skipField(ty byte) error {
-	if ty == MAP || ty == LIST || ty == StructBegin {
-		if b.skipDepth >= maxSkipDepth {
-			return fmt.Errorf("skip field: nesting deeper than %d", maxSkipDepth)
+	// open containers, innermost last: the number of elements still to skip of a list or map
+	// (a map counts keys and values), or -1 for a struct, which lasts up to its StructEnd
+	var open []int64
+	for {
+		switch ty {
+		case BYTE:
+			b.Skip(1)
+		case SHORT:
+			b.Skip(2)
+		case INT:
+			b.Skip(4)
+		case LONG:
+			b.Skip(8)
+		case FLOAT:
+			b.Skip(4)
+		case DOUBLE:
+			b.Skip(8)
+		case STRING1:
+			data, err := b.buf.ReadByte()
+			if err != nil {
+				return err
+			}
+			l := int(data)
+			b.Skip(l)
+		case STRING4:
+			var l uint32
+			err := bReadU32(b.buf, &l)
+			if err != nil {
+				return err
+			}
+			b.Skip(int(l))
+		case MAP, LIST:
+			var length int32
+			err := b.ReadInt32(&length, 0, true)
+			if err != nil {
+				return err
+			}
+			n := int64(length)
+			if ty == MAP {
+				n *= 2
+			}
+			if n > 0 {
+				open = append(open, n)
+			}
+		case SimpleList:
+			err := b.skipFieldSimpleList()
+			if err != nil {
+				return err
+			}
+		case StructBegin:
+			open = append(open, -1)
+		case StructEnd:
+			if n := len(open); n > 0 && open[n-1] == -1 {
+				open = open[:n-1]
+			}
+		case ZeroTag:
+		default:
+			return fmt.Errorf("invalid type")
 		}
-		b.skipDepth++
-		defer func() { b.skipDepth-- }()
+		n := len(open)
+		if n == 0 {
+			return nil
+		}
+		if open[n-1] > 0 {
+			if open[n-1]--; open[n-1] == 0 {
+				// its last element is the one read next; the container is complete with it
+				open = open[:n-1]
+				// (a struct element pushes itself again below)
+			}
+		}
+		var err error
+		ty, _, err = b.readHead()
+		if err != nil {
+			return err
+		}
 	}
-	switch ty {
-	case BYTE:
-		b.Skip(1)
-	case SHORT:
-		b.Skip(2)
-	case INT:
-		b.Skip(4)
-	case LONG:
-		b.Skip(8)
-	case FLOAT:
-		b.Skip(4)
-	case DOUBLE:
-		b.Skip(8)
-	case STRING1:
-		data, err := b.buf.ReadByte()
-		if err != nil {
-			return err
-		}
-		l := int(data)
-		b.Skip(l)
-	case STRING4:
-		var l uint32
-		err := bReadU32(b.buf, &l)
-		if err != nil {
-			return err
-		}
-		b.Skip(int(l))
-	case MAP:
-		err := b.skipFieldMap()
-		if err != nil {
-			return err
-		}
-	case LIST:
-		err := b.skipFieldList()
-		if err != nil {
-			return err
-		}
-	case SimpleList:
-		err := b.skipFieldSimpleList()
-		if err != nil {
-			return err
-		}
-	case StructBegin:
-		err := b.SkipToStructEnd()
-		if err != nil {
-			return err
-		}
-	case StructEnd:
-	case ZeroTag:
-	default:
-		return fmt.Errorf("invalid type")
-	}
-	return nil
 }
 
 // SkipToStructEnd for skip to the StructEnd tag.
